@@ -1,4 +1,5 @@
 use crate::{rng::Rng, Emit};
+pub mod c05;
 pub mod c09;
 pub mod c15;
 pub mod c16;
@@ -9,6 +10,7 @@ pub fn eval(op: &str, args: &[&str]) -> Option<String> {
     let prop = op.trim_start_matches("p.");
     let prop = prop.split('.').next().unwrap_or("");
     match prop {
+        "c05" => c05::eval(op, args),
         "c09" => c09::eval(op, args),
         "c15" => c15::eval(op, args),
         "c16" => c16::eval(op, args),
@@ -18,6 +20,7 @@ pub fn eval(op: &str, args: &[&str]) -> Option<String> {
 
 pub fn generate(prop: &str, thorough: bool, rng: &mut Rng, em: &mut Emit) {
     match prop {
+        "C05" => c05::generate(thorough, rng, em),
         "C09" => c09::generate(thorough, rng, em),
         "C15" => c15::generate(thorough, rng, em),
         "C16" => c16::generate(thorough, rng, em),
